@@ -123,26 +123,10 @@ func runCheck(repo, vdir, prop, tier string, verbose, updateBaseline, writeEvide
 		fmt.Fprintln(os.Stderr, "load:", err)
 		return 2
 	}
-	cs := NewContracts()
-	cfiles := l.contractFiles()
-	var cfnames []string
-	for f := range cfiles {
-		cfnames = append(cfnames, f)
-	}
-	sort.Strings(cfnames)
-	for _, f := range cfnames {
-		if err := cs.LoadContractFile(f, cfiles[f], false); err != nil {
-			fmt.Fprintln(os.Stderr, err)
-			return 2
-		}
-	}
-	assumed, _ := filepath.Glob(filepath.Join(vdir, "assumed", "*.contracts"))
-	sort.Strings(assumed)
-	for _, f := range assumed {
-		if err := cs.LoadContractFile(f, "", true); err != nil {
-			fmt.Fprintln(os.Stderr, err)
-			return 2
-		}
+	cs, err := loadContracts(l, vdir)
+	if err != nil {
+		fmt.Fprintln(os.Stderr, err)
+		return 2
 	}
 	x := NewExec(l, cs)
 	x.specFuel = fuel
@@ -417,4 +401,29 @@ func roundMap(m map[string]float64) map[string]float64 {
 		out[k] = round3(v)
 	}
 	return out
+}
+
+// loadContracts reads the assumed contracts and prelude (/verif/assumed) and
+// then the contract files of the loaded repository packages.
+func loadContracts(l *Loader, vdir string) (*Contracts, error) {
+	cs := NewContracts()
+	assumed, _ := filepath.Glob(filepath.Join(vdir, "assumed", "*.contracts"))
+	sort.Strings(assumed)
+	for _, f := range assumed {
+		if err := cs.LoadContractFile(f, "", true); err != nil {
+			return nil, err
+		}
+	}
+	cfiles := l.contractFiles()
+	var cfnames []string
+	for f := range cfiles {
+		cfnames = append(cfnames, f)
+	}
+	sort.Strings(cfnames)
+	for _, f := range cfnames {
+		if err := cs.LoadContractFile(f, cfiles[f], false); err != nil {
+			return nil, err
+		}
+	}
+	return cs, nil
 }
